@@ -458,13 +458,20 @@ impl<'a> Iterator for ReadDir<'a> {
             }
         }
         unsafe {
-            Dirent::try_from_bytes(&self.filled_buf[self.offset..]).map(|de| {
+            if let Some(de) = Dirent::try_from_bytes(&self.filled_buf[self.offset..]) {
                 self.offset += de.d_reclen as usize;
-                Ok(DirEntry {
+                Some(Ok(DirEntry {
                     inner: de,
                     fd: self.fd,
-                })
-            })
+                }))
+            } else {
+                // Can't step over an entry that can't be parsed, the iteration ends here
+                self.eod = true;
+                self.offset = self.read_size;
+                Some(Err(Error::no_code(
+                    "Failed to parse a directory entry, possibly a too long name",
+                )))
+            }
         }
     }
 }
